@@ -314,6 +314,7 @@ type Config struct {
 	SettingEdits bool    `json:"settingEdits"`
 	EDSDelete    bool    `json:"edsDelete"`
 	StrategyEdits bool   `json:"strategyEdits"`
+	LabelEdits   bool    `json:"labelEdits,omitempty"` // labels of the ExtendedDaemonSet itself change (helm upgrade, kubectl label)
 	Evictions    bool    `json:"evictions,omitempty"` // daemon pods are deleted by somebody else (drain, eviction)
 	ModeEdits    bool    `json:"modeEdits,omitempty"` // the user flips canary.validationMode on the defaulted object
 	ERSTouch     bool    `json:"ersTouch,omitempty"` // somebody edits the metadata of replica sets (kubectl annotate)
